@@ -6,6 +6,7 @@ import SuccinctlyVerif.Proof.Kernels
 import SuccinctlyVerif.Proof.KernelsBP
 import SuccinctlyVerif.Proof.KernelsBlock
 import SuccinctlyVerif.Proof.KernelsSelect
+import SuccinctlyVerif.Proof.KernelsPdep
 namespace SV.Props.C02
 open SV
 
@@ -89,6 +90,35 @@ theorem select_broadword_eq (x : BitVec 64) (k : Nat) : selectBroadword x k = se
 example : selectBroadword 0x8000_0000_00F0_F0F0#64 12 = 63
     ∧ selectBroadword 0x8000_0000_00F0_F0F0#64 7 = 15
     ∧ selectBroadword 0x8000_0000_00F0_F0F0#64 13 = 64 := by
+  decide +kernel
+
+/-- `ilog2` as modelled (`63 - clz`) is the position of the highest set bit: if bit `q` is set and
+no higher bit is, `ilog2 y = q`. -/
+theorem ilog2_eq (y : BitVec 64) (q : Nat) (hq : y.getLsbD q = true)
+    (hhi : ∀ p, q < p → y.getLsbD p = false) : ilog2 y = q :=
+  Kernels.ilog2_unique y q hq hhi
+
+example : ilog2 0x0000_0F00_0000_0001#64 = 43 := by decide +kernel
+
+/-- The PDEP model deposits bit-exactly: result bit `p` is set iff mask bit `p` is set and the
+source bit numbered by the count of mask bits below `p` is set (Intel SDM semantics). -/
+theorem pdep_bit (src mask : BitVec 64) (p : Nat) :
+    (pdep src mask).getLsbD p
+      = (mask.getLsbD p && src.getLsbD (((wordBits mask).take p).count true)) :=
+  Kernels.pdep_getLsbD src mask p
+
+example : pdep 0b101#64 0xF0F0#64 = 0x50#64 := by decide +kernel
+
+/-- `select_in_word_pdep` (`(1 << (k+1)) - 1` deposited onto the word, then `ilog2`) returns the
+position of the `k`-th set bit, 64 if there are at most `k` set bits — for every word and every
+`k` (the `k ≥ 63` mask branch included). -/
+theorem select_pdep_eq (x : BitVec 64) (k : Nat) : selectPdep x k = selectInWordSpec x k :=
+  Kernels.selectPdep_eq x k
+
+example : selectPdep 0x8000_0000_00F0_F0F0#64 12 = 63
+    ∧ selectPdep 0x8000_0000_00F0_F0F0#64 7 = 15
+    ∧ selectPdep (BitVec.allOnes 64) 63 = 63
+    ∧ selectPdep 0x8000_0000_00F0_F0F0#64 13 = 64 := by
   decide +kernel
 
 end SV.Props.C02
